@@ -126,6 +126,10 @@ class Report:
                     und = [o for o in self.obs if o.rule == rule and o.key == key and o.status == UNDECIDED]
                     why = und[0].why if und else 'baseline instance no longer found/decided'
                     incomplete.append((rule, key, why))
+        # a rule without any floor must not pass on "undecided": an obligation it could not decide makes the run incomplete
+        for o in self.obs:
+            if o.status == UNDECIDED and o.rule not in baseline:
+                incomplete.append((o.rule, o.key, o.why or 'undecided'))
         # print
         by_rule: Dict[str, Dict[str, int]] = {}
         for o in self.obs:
